@@ -109,13 +109,19 @@ Section Case.
     | None, None => true
     | _, _ => false
     end.
+  (* negated single-condition neighbours with equal name and printed outbound: merged before /repo ec2de34,
+     must be left alone now (counted for coverage and to name a regression) *)
+  Definition neg_neighbours (a b : rule) : bool :=
+    match r_funcs a, r_funcs b with
+    | [fa], [fb] => (f_name fa =? f_name fb) && f_not fa && f_not fb && (out_print (r_out b) =? out_print (r_out a))
+    | _, _ => false
+    end.
   Fixpoint hazards (rs : list rule) : list (N * N) :=   (* (negated neighbours, outbound-print collisions) *)
     match rs with
     | a :: t =>
         match t with
-        | b :: _ => if mergeable a b
-                    then [((if neg_head_b a then 1 else 0), (if meaning_eqb (t_out (r_out a)) (t_out (r_out b)) then 0 else 1))%N]
-                    else []
+        | b :: _ => [((if neg_neighbours a b then 1 else 0),
+                      (if mergeable a b && negb (meaning_eqb (t_out (r_out a)) (t_out (r_out b))) then 1 else 0))%N]
         | [] => []
         end ++ hazards t
     | [] => []
@@ -140,7 +146,7 @@ Section Case.
               + List.length (filter (fun r => match r_funcs r with [] => true | _ => false end) rs)).
   Definition hypotheses_hold : bool :=
     match mid_stage with
-    | XOk mid => N.eqb (n_neg_hazards (map sort_funcs mid)) 0 && N.eqb (n_out_hazards (map sort_funcs mid)) 0
+    | XOk mid => N.eqb (n_out_hazards (map sort_funcs mid)) 0
                  && N.eqb (dedup_collisions (merge_sort_opt mid)) 0
                  && N.eqb (n_empty_conditions (dedup_opt (merge_sort_opt mid))) 0
     | _ => true
@@ -185,7 +191,7 @@ Section Case.
                           end) probes.
 
   (* signature for the evidence: (rules merged away, values removed by dedup, values added by geodata,
-     negated-neighbour hazards, outbound-print hazards, dedup collisions, model class 0 ok/1 err/2 crash,
+     negated neighbours (must stay unmerged), outbound-print hazards, dedup collisions, model class 0 ok/1 err/2 crash,
      conditions left without values) *)
   Definition count_params (rs : list rule) : N :=
     N.of_nat (List.length (atoms_of rs)).
